@@ -392,8 +392,26 @@ def chain_cases(ctx, mode, laws=None):
         ctx.vh("replay", mode=mode, infile=cases)
 
 
+CHAIN_DRIVE_QUICK = [(8, 16, "1,4,8"), (2, 6, "1,2"), (3, 6, "1,2,3"), (16, 32, "8,12,16"), (32, 64, "16,24,32"), (16, 64, "12,16"), (8, 32, "4,8")]
+CHAIN_DRIVE_THOROUGH = CHAIN_DRIVE_QUICK + [(2, 4, "1,2"), (2, 8, "1,2"), (4, 8, "1,2,3,4"), (3, 9, "1,2,3"), (32, 128, "24,32")]
+
+
+def chain_traces(ctx):
+    """impl -> spec: random data and decode histories with precision changes on the real ChainCoder at real and tiny widths;
+    the driver checks the three restore modes, TLC validates every recorded event exactly (TraceChain.tla) where S <= 16."""
+    n = 3000 if ctx.tier == "thorough" else 400
+    for (w, s, precs) in (CHAIN_DRIVE_THOROUGH if ctx.tier == "thorough" else CHAIN_DRIVE_QUICK):
+        base = os.path.join(ctx.work, "chaintrace_%d_%d" % (w, s))
+        ctx.vh("drive_chain", extra=["--w", str(w), "--s", str(s), "--precs", precs, "--n", str(n), "--trace", base])
+        if s <= 16:
+            ctx.validate_trace("TraceChain", base + ".exact.ndjson", {"W": w, "S": s}, what="ChainCoder<%d,%d> exact" % (w, s))
+    for c in ("restore_same", "restore_suffix", "restore_concat"):
+        ctx.require(c)
+
+
 @prop("C13")
 def c13(ctx):
+    chain_traces(ctx)
     chain_cases(ctx, "c13")
     for c in ("precision_change", "out_of_data", "out_of_remainders"):
         ctx.require(c)
